@@ -200,7 +200,11 @@ func full(c *engine.Ctx, key string, g *rg.G, sparse bool, classes [][]int) (res
 	var rawP []int
 	var rawO disjoint.Set
 	var rawG [][]int
-	pi := c.Call(key, func() {
+	call := c.Call
+	if g.N >= 13 {
+		call = c.CallSlowOK // see C01: slow on large symmetric graphs is not wrong
+	}
+	pi := call(key, func() {
 		rawP, rawO, rawG = graph.CanonicalIsomorphFull(lg, cl)
 		r, bad = copyResult(g.N, rawP, rawO, rawG)
 	})
@@ -579,7 +583,11 @@ func reuseHistory(c *engine.Ctx, hi int) {
 		}
 		var reused result
 		var bad string
-		pi := c.Call("aut|"+vk+"|reused", func() {
+		call := c.Call
+		if n >= 13 {
+			call = c.CallSlowOK
+		}
+		pi := call("aut|"+vk+"|reused", func() {
 			op.Reset(n, m, cl)
 			p, o, gs := graph.CanonicalIsomorphAllocated(n, m, nb, op, st, new(graph.CanonicalOptions))
 			reused, bad = copyResult(n, p, o, gs)
